@@ -145,6 +145,23 @@ UNITS = {
         "bounded_note": ["recursive spec functions transcribed as loops of at most 64 iterations (type width), "
                          "unwound 66 times: exhaustive, unwinding assertions are obligations"],
     },
+    "deps_models": {
+        "props": ["C01", "C02"], "tier": "thorough", "file": "src/lib.rs", "level": "bounded",
+        "doc": "audit of the dependency models of /verif/prelude/deps.rs against the real crates: arrayvec::ArrayVec "
+               "(new/push/pop/len/is_empty/clear/deref; push panics exactly when full) and <[T]>::chunks_exact / "
+               "ChunksExact::next / remainder; instances only",
+        "functions": [],
+        "audited": ["arrayvec::ArrayVec model (prelude/deps.rs)", "core::slice::ChunksExact model (prelude/deps.rs)"],
+        "harnesses": {
+            "vf_model_arrayvec": [],
+            "vf_model_arrayvec_push_full_panics": [],
+            "vf_model_chunks_exact": [("buf", "[u8;13]"), ("len", "usize"), ("k", "usize")],
+        },
+        "targets": {"vf_model_arrayvec": "arrayvec::ArrayVec (assumed model)",
+                    "vf_model_arrayvec_push_full_panics": "arrayvec::ArrayVec::push (assumed precondition len < CAP)",
+                    "vf_model_chunks_exact": "core::slice::ChunksExact (assumed model)"},
+        "domain": "T = u8, CAP = 4 (2 for the panic harness), scripts of 6 operations; slices of length <= 13, chunk size 1..=4",
+    },
     "prelude_array_ref": {
         "props": ["C01"], "tier": "quick", "file": "src/lib.rs", "level": "bounded",
         "doc": "audit of extraction rule R1 / trusted wrappers vf_array_ref, vf_array_mut_ref against the real "
